@@ -61,62 +61,81 @@ def run(repo, tier):
                        'errors during SET_ADDRESS (its status is overwritten by the next poll)']
     fn, paths = D.main_paths(facts)
     rep.count('paths through cli_main', len(paths))
-    consts = facts.consts
+    consts = D.module_consts(facts)
     n_req = 0
     n_tests = 0
     guard_seen = False
+    unread = []          # (line, text) of inequalities before the first request whose terms the rules cannot relate to the firmware length
     seen = set()
     for p in paths:
         m = D.PathModel(p, consts)
         evs = m.evs
         datas = [r for r in m.reqs if r.kind == 'DATA']
         # symbols: LEN is len() of the value read from the file; S the chunk size when the path gets as far as a data download
-        raw = None
+        raw = m.raw()
         S = None
         if datas:
-            shape = m.data_shape(datas[0])
+            try:
+                shape = m.data_shape(datas[0])
+            except D.Undecided as e:
+                # the capacity cannot be related to the chunk size on this path; the guard's form is still checked against the letter
+                shape = str(e)
+                if ('shape', shape) not in seen:
+                    seen.add(('shape', shape))
+                    rep.note('chunk size not derived on a path: ' + shape)
             if not isinstance(shape, str):
-                raw, S = shape[4], shape[3]
-        if raw is None:
-            # paths that end before the first data download: the file content is the res bound from a .read() call
-            for ev in p.events:
-                if ev[0] == 'value' and ev[1][0] == 'res' and strip(ev[1])[0] == 'mcall' and strip(ev[1])[2].startswith('read'):
-                    raw = ev[1]
-        sym = D.Sym(consts, [], raw)
-        if raw is not None and ('whole', repr(strip(raw))) not in seen:
-            seen.add(('whole', repr(strip(raw))))
-            whole, why = D.whole_file_read(raw)
-            if whole is None:
-                raise AnalysisError('cli_main: ' + why)
-            node_r = next((ev[-1] for ev in p.events if ev[0] == 'value' and ev[1] == raw), fn)
-            rep.check(whole, 'R19.1.whole-file', 'the length that is guarded is the length of the whole file',
-                      lambda why=why, node_r=node_r: Finding('R19.1.whole-file', 'cli_main', node_r, why + ': an oversize firmware file is not refused', file=FILE,
-                                                             line=getattr(node_r, 'lineno', fn.lineno)))
+                S = shape[3]
+        # the guard is recognised by what it compares: the length of a buffer bound earlier on the path (the symbol ('len', X)); that
+        # buffer X must be the whole content of the file - whatever is done to the image afterwards
+        sym = m.base_sym(None)
         # (1) guard
         guard = None
         for kind, idx, node, payload in evs:
             if kind == 'COND':
                 g = sym.gt(payload[0])
-                if g is not None and D.mentions(g, LEN):
-                    a, b, high = D.split_by(g, LEN)
+                lens = {s_ for mono in g.terms for s_ in mono if isinstance(s_, tuple) and s_ and s_[0] == 'len'} if g is not None else set()
+                if len(lens) == 1:
+                    LENX = next(iter(lens))
+                    buf = LENX[1]
+                    if ('whole', repr(strip(buf))) not in seen:
+                        seen.add(('whole', repr(strip(buf))))
+                        whole, why = D.whole_file_read(buf)
+                        if whole is None:
+                            rep.undecided('cli_main: ' + why)
+                            whole = True
+                        node_r = next((ev[-1] for ev in p.events if ev[0] == 'value' and ev[1] == buf), fn)
+                        rep.check(whole, 'R19.1.whole-file', 'the length that is guarded is the length of the whole file',
+                                  lambda why=why, node_r=node_r: Finding('R19.1.whole-file', 'cli_main', node_r, why + ': an oversize firmware file is not refused', file=FILE,
+                                                                         line=getattr(node_r, 'lineno', fn.lineno)))
+                    a, b, high = D.split_by(g, LENX)
                     if payload[1] is False:
                         form_ok = not high and b == Poly.const(1)
                         cap = -a if form_ok else None
                         want, why = expected_capacity(m, consts, S)
+                        by_key, key = D.table_values(cap, consts) if form_ok else (None, None)
                         if form_ok and want is not None:
                             form_ok = cap == want
+                        elif form_ok and by_key is not None:
+                            # the capacity is looked up in a module-level table by the serial-number letter: the oracle's table
+                            ks = strip(key)
+                            if not (ks[0] == 'sub' and ks[2] == C(2)):
+                                rep.undecided('the flash capacity is looked up in a table by {}: not the serial-number letter'.format(show(key)[:40]))
+                                form_ok = None
+                            else:
+                                form_ok = all(by_key.get(l) == n * oracle.DFU['gd32_page_size'] for l, n in oracle.DFU['gd32_pages'].items())
                         elif form_ok and S is not None:
                             q = D.divide(cap, S)
                             form_ok = q is not None and not D.mentions(q, PAGE)
-                            if form_ok:
-                                # page_count looked up in a module table: must be the oracle's table
-                                for k in q.terms:
-                                    for s_ in k:
-                                        tl = D.table_lookup(s_, consts) if isinstance(s_, tuple) else None
-                                        if tl is not None:
-                                            name, dct, key = tl
-                                            form_ok = form_ok and q == Poly.sym(s_) and S == Poly.const(oracle.DFU['gd32_page_size']) \
-                                                and all(dct.get(l) == n for l, n in oracle.DFU['gd32_pages'].items())
+                            if not form_ok and not (D.understood(cap, sym) and D.understood(S, sym)):
+                                rep.undecided('the capacity the size guard admits ({}) is not an expression the rules can follow'.format(cap))
+                                form_ok = None
+                        elif not form_ok and not D.understood(g, sym, (LENX,)):
+                            rep.undecided('the size guard compares the firmware length with something the rules cannot follow: {}'.format(g))
+                            form_ok = None
+                        if form_ok is None:
+                            guard = guard or (idx, True)
+                            guard_seen = True
+                            continue
                         if guard is None:
                             guard = (idx, form_ok)
                         if form_ok:
@@ -136,6 +155,11 @@ def run(repo, tier):
                         rep.check(ok, 'R19.1.refuse', 'oversize firmware: failing exit, nothing sent',
                                   lambda node=node: Finding('R19.1.refuse', 'cli_main', node, 'oversize firmware is not refused with a failing exit before any request', file=FILE,
                                                             line=getattr(node, 'lineno', fn.lineno)), nontrivial=False)
+        unread_here = []
+        if guard is None and m.sends:
+            unread_here = m.unread_inequalities(sym, min(r.idx for r in m.sends), lengths=True)
+            for idx_, node_, test_ in unread_here:
+                unread.append((getattr(node_, 'lineno', '?'), show(test_)[:80]))
         # (2), (3)
         last_dn = None          # the last ERASE / DATA request whose status has not been tested yet
         last_poll = None
@@ -146,9 +170,19 @@ def run(repo, tier):
                 if st is None:
                     continue
                 verdict, tested, weights, uid = st
+                if verdict == 'unclear':
+                    # a test over the status byte that cannot be evaluated: it may well be the check - no verdict for this request
+                    key = ('unclear', getattr(node, 'lineno', None), show(test)[:80])
+                    if key not in seen:
+                        seen.add(key)
+                        rep.undecided('the test on the device status at line {} cannot be evaluated: {}'.format(key[1], key[2]))
+                    last_dn = None
+                    continue
                 n_tests += 1
                 if strip(tested)[0] == 'havoc':
-                    raise AnalysisError('the status tested at line {} is a loop-carried value the analysis cannot trace to a reply'.format(getattr(node, 'lineno', '?')))
+                    rep.undecided('the status tested at line {} is a loop-carried value the analysis cannot trace to a reply'.format(getattr(node, 'lineno', '?')))
+                    last_dn = None
+                    continue
                 if weights is not None and weights != {0: 1}:
                     rep.fail(Finding('R19.3.status-byte', 'cli_main', node,
                                      'the value compared with STATUS_OK is not bStatus (byte 0 of the GETSTATUS reply) but bytes {}'.format(sorted(weights)),
@@ -163,7 +197,9 @@ def run(repo, tier):
                                                                        'state but not the status, so an error reported while the device was settling is missed'.format(show(tested)[:80]),
                                                                        file=FILE, line=getattr(node, 'lineno', None)))
                 if weights is None:
-                    raise AnalysisError('cannot trace the value compared with STATUS_OK at line {} to a GETSTATUS reply: {}'.format(getattr(node, 'lineno', '?'), show(tested)[:80]))
+                    rep.undecided('cannot trace the value compared with STATUS_OK at line {} to a GETSTATUS reply: {}'.format(getattr(node, 'lineno', '?'), show(tested)[:80]))
+                    last_dn = None
+                    continue
                 if last_dn is not None and last_poll is not None and fresh:
                     last_dn = None
                 bad = (verdict == 'bad') == pol
@@ -185,7 +221,10 @@ def run(repo, tier):
                     last_poll = r
                     continue
                 n_req += 1
-                rep.check(guard is not None and guard[0] < idx, 'R19.1.dominates', '{} request is preceded by the size guard'.format(r.kind),
+                if guard is None and unread_here:
+                    pass           # a size comparison the rules could not read precedes the request: no verdict (reported below)
+                else:
+                    rep.check(guard is not None and guard[0] < idx, 'R19.1.dominates', '{} request is preceded by the size guard'.format(r.kind),
                           lambda r=r: Finding('R19.1.dominates', 'cli_main', r.site,
                                               'a {} request can be sent before the firmware size has been checked against the flash size'.format(r.kind),
                                               file=FILE, line=r.line), nontrivial=False)
@@ -211,7 +250,9 @@ def run(repo, tier):
             rep.ok('R19.3.status-tested', 'every erase / data request has its status tested on every path')
     rep.analysed['requests on paths'] = n_req
     rep.count('status tests on paths', n_tests)
-    if not guard_seen:
+    if not guard_seen and unread:
+        rep.undecided('a size comparison before the first request is not one the rules can relate to the firmware length (line {}): {}'.format(*unread[0]))
+    elif not guard_seen:
         rep.fail(Finding('R19.1.guard', 'cli_main', 'size guard', 'no test of the firmware length against the flash capacity precedes the requests', file=FILE, line=fn.lineno))
     else:
         rep.ok('R19.1.guard', 'guard normalises to len(firmware) - capacity > 0 -> refuse')
